@@ -102,11 +102,16 @@ func isIncludeKeyword(lex *scanner.Lexeme) bool {
 }
 
 func validateIncludeFileName(s string) error {
+	if s == "" {
+		return errors.New(jerr.IncludeEmptyErr)
+	}
+
 	if s[0] == '/' {
 		return errors.New(jerr.IncludeRootErr)
 	}
 
-	hasForbiddenParts := strings.Contains(s, "/./") ||
+	hasForbiddenParts := s == "." || s == ".." ||
+		strings.Contains(s, "/./") ||
 		strings.Contains(s, "./") ||
 		strings.Contains(s, "/.") ||
 		strings.Contains(s, "/../") ||
